@@ -19,6 +19,10 @@ fn main() {
 		std::process::exit(2);
 	}
 	let id = args[1].clone();
+	if id == "--build-only" {
+		// used by ./check to compile an instrumented build once before starting parallel processes
+		return;
+	}
 	if id == "C03-child" {
 		monitor::install_panic_hook();
 		std::process::exit(check::c03::child(&args[2..]));
